@@ -38,8 +38,10 @@ fn checked_retrievals(rng: &mut Rng, ki: usize, vi: usize, algo: &str, f: (&str,
     let mut v = vec![
         json!({"k":"api","op":"read","key":ki}),
         json!({"k":"api","op":"read","addr":addr}),
-        json!({"k":"api","op":"reader","key":ki,"bufs":[buf]}),
-        json!({"k":"api","op":"reader","addr":addr,"bufs":[buf, if len > 4096 { 4096 } else { 3 }]}),
+        json!({"k":"api","op":"reader","key":ki,"bufs":[buf],"eof_reads":rng.below(3)}),
+        // buffer sizes alternate (sometimes with an empty buffer in between, which reads 0 bytes without being the end)
+        json!({"k":"api","op":"reader","addr":addr,"bufs": if rng.chance(1, 3) && len <= 4096 { json!([buf, 0, 3]) } else { json!([buf, if len > 4096 { 4096 } else { 3 }]) },"eof_reads":rng.below(2)}),
+        json!({"k":"api","op":"reader","key":ki,"bufs":[4096],"to_end":*rng.pick(&[0u64, 3, 100])}),
         json!({"k":"api","op":"copy","key":ki,"to":format!("$O/{tag}-ck")}),
         json!({"k":"api","op":"copy","addr":addr,"to":format!("$O/{tag}-ca")}),
         json!({"k":"api","op":"hard_link","key":ki,"to":format!("$O/{tag}-hk")}),
@@ -479,6 +481,13 @@ pub fn gen_c08(rng: &mut Rng) -> Value {
                 let other = *rng.pick(&ALGOS);
                 o["sri"] = json!({"val": if rng.chance(1, 2) { 0 } else { 1 },"algo":other});
             }
+            5 if rng.chance(1, 3) => {
+                // multi-hash, every hash a true digest of the data, one of them of a stronger algorithm than the
+                // writer's: the declaration matches, the commit must succeed (what the entry then resolves to is
+                // observation O2 of DESIGN section 7, outside the properties: the model expects reads to fail)
+                let other = *rng.pick(&["sha512", "sha384", "sha256"]);
+                o["sri"] = json!({"multi":[{"val":0,"algo":algo},{"val":0,"algo":other}]});
+            }
             5 => {
                 // multi-hash containing the correct one plus a weaker-or-equal foreign hash
                 o["sri"] = json!({"multi":[{"val":0,"algo":algo},{"val":1,"algo":"xxh3"}]});
@@ -638,8 +647,12 @@ pub fn gen_c14(rng: &mut Rng) -> Value {
                     1 => len + 1 + rng.below(9),
                     // fewer bytes declared than written: the data outgrows the preallocated file in the middle of a chunk
                     2 if len > 1 => rng.range(1, len - 1),
-                    _ => len / 2,
+                    _ => if rng.chance(1, 2) { 0 } else { len / 2 },
                 });
+                if rng.chance(1, 3) {
+                    // a correct integrity declared next to the wrong size
+                    o["sri"] = json!({"val":vi,"algo":"sha256"});
+                }
             }
             _ => {
                 // a digest that names nothing, or the true address of another value (which may be stored and in use)
@@ -756,6 +769,9 @@ pub fn gen_c19(rng: &mut Rng) -> Value {
         let k = rng.range(1, 3);
         let reads: Vec<u64> = (0..k).map(|_| *rng.pick(&[0u64, 1, 5, 8, 100, 16384, 20000])).collect();
         st["reads"] = json!(reads);
+        if rng.chance(1, 3) {
+            st["to_end"] = json!(*rng.pick(&[0u64, 1, 40]));
+        }
     }
     if relative && entry != "fn" && rng.chance(1, 2) {
         // the caller changes directory between opening the linker and committing it
@@ -921,7 +937,8 @@ pub fn gen_c20(rng: &mut Rng) -> Value {
             5 => json!({"k":"api","op":"write","entry":*rng.pick(&["write","write_algo"]),"algo":*rng.pick(&ALGOS),"val":vi,"key":ki}),
             6 => json!({"k":"api","op":"write","entry":"write","val":vi}),
             7 => json!({"k":"api","op":"read","key":ki}),
-            8 => json!({"k":"api","op":"reader","key":ki,"bufs":[0, if vals.iter().any(|v| v["len"].as_u64().unwrap_or(0) > 4096) { 4096 } else { *rng.pick(&[1u64, 0, 4096]) }]}),
+            8 if rng.chance(1, 4) => json!({"k":"api","op":"reader","key":ki,"bufs":[4096],"to_end":*rng.pick(&[0u64, 1, 40]),"exact_first":*rng.pick(&[0u64, 1, 33, 5000]),"eof_reads":rng.below(3)}),
+            8 => json!({"k":"api","op":"reader","key":ki,"bufs":[0, if vals.iter().any(|v| v["len"].as_u64().unwrap_or(0) > 4096) { 4096 } else { *rng.pick(&[1u64, 0, 4096]) }],"eof_reads":rng.below(4)}),
             9 => json!({"k":"api","op":*rng.pick(&["metadata","find"]),"key":ki}),
             10 => json!({"k":"api","op":*rng.pick(&["list","ls"])}),
             11 => json!({"k":"api","op":*rng.pick(&["copy","copy_unchecked","hard_link","reflink","hard_link_unchecked","reflink_unchecked"]),"key":ki,"to":format!("$O/h{}", rng.below(3))}),
@@ -1002,6 +1019,14 @@ pub fn gen_c12(rng: &mut Rng) -> Value {
             }
             7 | 8 => json!({"k":"api","op":"read","key":ki}),
             9 => json!({"k":"api","op":"read","addr":{"val":vi,"algo":"sha256"}}),
+            10 if rng.chance(1, 3) => json!({"k":"api","op":"reader","key":ki,"bufs":[*rng.pick(&[1u64, 7, 100]), *rng.pick(&[8192u64, 16384, 65536])],"eof_reads":rng.below(2)}),
+            10 if rng.chance(1, 3) => {
+                let mut r = json!({"k":"api","op":"reader","key":ki,"bufs":[4096],"to_end":*rng.pick(&[0u64, 1, 40, 3000])});
+                if rng.chance(1, 2) {
+                    r["exact_first"] = json!(*rng.pick(&[1u64, 33, 5000, 3_000_000]));
+                }
+                r
+            }
             10 => json!({"k":"api","op":"reader","key":ki,"bufs":[pick_buf(rng, vals.iter().map(|v| v["len"].as_u64().unwrap_or(0)).max().unwrap_or(0))]}),
             11 => json!({"k":"api","op":"metadata","key":ki}),
             12 => json!({"k":"api","op":"exists","addr":{"val":vi,"algo":"sha256"}}),
@@ -1016,6 +1041,12 @@ pub fn gen_c12(rng: &mut Rng) -> Value {
             21 if rng.chance(1, 3) => json!({"k":"api","op":"clear"}),
             21 => json!({"k":"api","op":"list"}),
             22 => json!({"k":"env","act":"flip_frac","content":{"val":vi,"algo":"sha256"},"num":rng.below(1000),"bit":rng.below(8)}),
+            _ if rng.chance(1, 6) => match rng.below(3) {
+                // paths of the index that do not resolve (a loop, a file where a directory should be)
+                0 => json!({"k":"env","act":"symlink_loop","bucket":ki}),
+                1 => json!({"k":"env","act":"mkdir","bucket":ki}),
+                _ => json!({"k":"env","act":"write_file","path":"$C/index-v5/zz","hex":"00"}),
+            },
             _ if rng.chance(1, 3) => json!({"k":"env","act":"append_record","bucket":ki,"rec":{"key":keys[ki].clone(),"integrity":*rng.pick(&["md5-1B2M2Y8AsgTpgAmY7PhCfg==", "garbage", "sha256"]),"time":1,"size":0,"metadata":null,"raw_metadata":null}}),
             _ => json!({"k":"env","act":"insert_line","bucket":ki,"boundary":rng.below(4),"hex": if rng.chance(1,2) { "fffec3".to_string() } else { hex::encode(garbage_line(rng)) }}),
         };
